@@ -21,7 +21,7 @@ class UnitError(Exception):
 # --------------------------------------------------------------------------
 # contracts.vrs parsing
 
-SECTION_KW = ("body_entry", "requires", "ensures", "invariant", "invariant_except_break", "ensures_loop", "decreases", "entry", "header", "props", "ret", "flags", "iter", "recommends", "before_body_end")
+SECTION_KW = ("body_entry", "before", "after", "requires", "ensures", "invariant", "invariant_except_break", "ensures_loop", "decreases", "entry", "header", "props", "ret", "flags", "iter", "recommends", "before_body_end")
 
 
 class Clause:
@@ -73,6 +73,14 @@ def parse_contracts(path):
                     cur.raw["iter"] = tok[5:]
             sec = None
             continue
+        if line.startswith("@after_stmt "):
+            rx = line[len("@after_stmt "):].strip()
+            cur = Contract("after_stmt", rx)
+            cur_fn.after_stmts = getattr(cur_fn, "after_stmts", [])
+            cur_fn.after_stmts.append(cur)
+            cur.raw["entry"] = ""
+            sec = "entry"
+            continue
         if line.startswith("@after_let "):
             nm = line.split()[1]
             cur = Contract("after_let", nm)
@@ -104,7 +112,7 @@ def parse_contracts(path):
             elif head == "flags":
                 cur.flags |= set(rest.split())
                 sec = None
-            elif head in ("entry", "header", "decreases", "iter", "before_body_end", "body_entry"):
+            elif head in ("entry", "header", "decreases", "iter", "before_body_end", "body_entry", "before", "after"):
                 cur.raw[head] = rest
             else:
                 cur.sections.setdefault(head, [])
@@ -115,7 +123,7 @@ def parse_contracts(path):
         if sec is None:
             raise UnitError("%s:%d: unexpected line" % (path, lineno))
         s = line.strip()
-        if sec in ("entry", "header", "decreases", "iter", "before_body_end", "body_entry"):
+        if sec in ("entry", "header", "decreases", "iter", "before_body_end", "body_entry", "before", "after"):
             cur.raw[sec] = (cur.raw[sec] + "\n" + line) if cur.raw[sec] else line
             continue
         mm = re.match(r"\[([A-Za-z0-9_.\-]+)((?:\s+C\d+)*)\]\s*(.*)$", s)
@@ -348,11 +356,30 @@ class Unit:
                     raise LostAnchor("%s: loop #%d of %s not found" % (it.file, k, it.name))
                 kw_pos, kw, bo = loops[k - 1]
                 inserts.append((kw_pos, "loop", lc, (kw_pos, kw, bo)))
+                if "after" in lc.raw:
+                    inserts.append((L.match_close(m, bo) + 1, "entry", lc.raw["after"], None))
             closures = L.find_closures(m, 1, len(m) - 1)
             for k, cc in c.closures.items():
                 if k > len(closures):
                     raise LostAnchor("%s: closure #%d of %s not found" % (it.file, k, it.name))
                 inserts.append((closures[k - 1]["bars"][0], "closure", cc, closures[k - 1]))
+            for ac in getattr(c, "after_stmts", []):
+                # anchor: after EVERY statement whose text matches the regex (same hint at all of them)
+                hits = []
+                for k in re.finditer(ac.key, m):
+                    e = k.start()
+                    while e < len(m) and m[e] != ";":
+                        if m[e] in "([{":
+                            e = L.match_close(m, e)
+                        elif m[e] in ")]}":
+                            break
+                        e += 1
+                    if e < len(m) and m[e] == ";":
+                        hits.append(e + 1)
+                if not hits:
+                    raise LostAnchor("%s: statement anchor /%s/ of %s not found" % (it.file, ac.key, it.name))
+                for hpos in sorted(set(hits)):
+                    inserts.append((hpos, "entry", ac.raw["entry"], None))
             for nm, ac in getattr(c, "after_lets", {}).items():
                 # anchor: the `let` statement (at any depth) whose pattern binds identifier nm
                 hits = []
@@ -401,6 +428,8 @@ class Unit:
             elif kind == "loop":
                 kw_pos, kw, bo = extra
                 segs.append(("t", body[pos:kw_pos]))
+                if "before" in payload.raw:
+                    segs.append(("t", "\n" + payload.raw["before"].strip() + "\n"))
                 seg = body[kw_pos:bo]
                 if "iter" in payload.raw and kw == "for":
                     ms = L.mask(seg)
